@@ -116,6 +116,22 @@ def real_data(ck, em, rng, count):
             else:
                 ck.violation("M2:GmmMStep:MAP.RealData.Variances", rep)
             continue
+        # one machine object adapted to one client, re-initialised (initialize_gaussians() puts the prior back), adapted
+        # to the next: the second adaptation is the blend of the PRIOR with the second client's data
+        if i % 3 == 2:
+            XA = X[: len(X) // 2] + 0.7
+            swm = (True, False, True)
+            mm = gt.new_machine(em, init, 1, None, swm, "map", prior, rel)
+            gt.fit(mm, XA)
+            mm.initialize_gaussians()
+            gt.fit(mm, X)
+            w2, mu2, _ = blend(prior, st, rel, True, False, True)
+            if not (np.allclose(mm.weights, w2, rtol=1e-9, atol=1e-12) and np.allclose(mm.means, mu2, rtol=1e-9, atol=1e-12)):
+                ck.violation("M2:GmmMStep:MAP.RealData.AfterReinitialisation",
+                             {"mechanism": "M2", "meta": meta, "detail": "a machine adapted to another client, re-initialised and adapted "
+                              "to this data differs from the blend of the prior with this data: weights %s (blend %s)"
+                              % (np.asarray(mm.weights).tolist(), w2.tolist())})
+                continue
         # limits: huge relevance -> prior, vanishing relevance -> ML estimate (means and weights)
         big = gt.fit(gt.new_machine(em, init, 1, None, (True, False, True), "map", prior, 1e12), X)
         if not (np.allclose(big.means, prior.means, rtol=0, atol=1e-6) and np.allclose(big.weights, prior.weights, rtol=0, atol=1e-6)):
